@@ -86,7 +86,9 @@ __chk_resz(alist_t al, size_t keylen)
 		size_t ol = al->allz;
 		void *tmp;
 
-		al->allz = (al->allz * 2U) ?: 64U;
+		do {
+			al->allz = (al->allz * 2U) ?: 64U;
+		} while (!__fitsp(al, keylen));
 		if (UNLIKELY((tmp = realloc(al->data, al->allz)) == NULL)) {
 			free_alist(al);
 			return -1;
